@@ -688,6 +688,288 @@ fn race_case(idx: Idx, transition: &Call, ops: &[Call], ch: &mut Chooser) -> Rac
 
 
 // ---------------------------------------------------------------------------
+// Part E: lifecycle operations of ONE collection name racing each other
+// (per-name lifecycle lock): close_collection / open_or_create / delete.
+
+#[derive(Clone, Copy, Debug, Serialize, Deserialize, PartialEq)]
+enum Life {
+    Close,
+    Open,
+    Delete,
+}
+
+fn life_race_case(idx: Idx, ops: &[Life], ch: &mut Chooser) -> RaceResult {
+    let (mut live, model) = setup(idx, true);
+    let coll = live.fx.coll.clone();
+    let db = live.fx.db.clone();
+    let next_id = coll.max_document_id() + 1;
+    let n = ops.len();
+    // per task: Ok(handle opened, if any) / Err(text)
+    type LifeOut = Result<Option<Arc<Collection>>, String>;
+    let results: Rc<RefCell<Vec<Option<LifeOut>>>> = Rc::new(RefCell::new((0..n).map(|_| None).collect()));
+    let mut problems = Vec::new();
+    live.ctl.clear_labels();
+    live.ctl.keep_labels(true);
+    live.ctl.set_gate(true);
+    live.ctl.set_post_gate(true);
+    let mut steps = 0usize;
+    let mut deadlock: Option<Vec<String>> = None;
+    // scheduler step at which each task was first polled / returned
+    let mut first_step: Vec<Option<usize>> = vec![None; n];
+    let mut done_step: Vec<Option<usize>> = vec![None; n];
+    {
+        let mut sched = Sched::new();
+        let ctl = live.ctl.clone();
+        sched.on_switch = Some(Box::new(move |t| ctl.set_task(t)));
+        for (i, op) in ops.iter().enumerate() {
+            let (d2, r2, op2) = (db.clone(), results.clone(), *op);
+            sched.spawn(&format!("{op:?}#{i}"), async move {
+                let out: LifeOut = match op2 {
+                    Life::Close => d2.close_collection(COLL_NAME).await.map(|_| None).map_err(|e| format!("{e:?}")),
+                    Life::Delete => d2.delete_collection(COLL_NAME).await.map(|_| None).map_err(|e| format!("{e:?}")),
+                    // the open callback has real work when it loads from storage: it creates the
+                    // `tags` index (with backfill) that the fixture of this part starts without
+                    Life::Open => fixture::open_coll_with(&d2, Idx::ALL, idx).await.map(Some).map_err(|e| format!("{e:?}")),
+                };
+                r2.borrow_mut()[i] = Some(out);
+            });
+        }
+        loop {
+            if steps > 6000 {
+                problems.push(("life-race|livelock".into(), "no completion within 6000 steps".into()));
+                break;
+            }
+            let (opts, costs) = sched.options();
+            if opts.is_empty() {
+                if !sched.all_done() {
+                    deadlock = Some((0..n).filter(|t| sched.state(*t) == TaskState::Suspended).map(|t| sched.name(t).to_string()).collect());
+                }
+                break;
+            }
+            let pick = if opts.len() == 1 { 0 } else { ch.choose(&costs) };
+            let t = opts[pick];
+            if first_step[t].is_none() {
+                first_step[t] = Some(steps);
+            }
+            let done = sched.step(t);
+            steps += 1;
+            if done {
+                done_step[t] = Some(steps);
+            }
+        }
+    }
+    live.ctl.set_gate(false);
+    live.ctl.keep_labels(false);
+    live.ctl.set_task(99);
+    let labels: Vec<String> = conc::canon_labels(&live.ctl.labels());
+    let outs: Vec<Option<LifeOut>> = results.borrow().iter().map(|o| o.clone()).collect();
+    let shorts: Vec<String> = outs
+        .iter()
+        .map(|o| match o {
+            None => "never-returned".to_string(),
+            Some(Ok(Some(h))) => format!("handle:{:?}", h.state()),
+            Some(Ok(None)) => "ok".to_string(),
+            Some(Err(e)) => format!("err:{}", e.split(['{', '(']).next().unwrap_or("").trim()),
+        })
+        .collect();
+    let outcome_key = util::fnv64(format!("{shorts:?}|{}", prefix_content(&live).is_empty()).as_bytes());
+    if let Some(who) = deadlock {
+        problems.push(("life-race|deadlock".into(), format!("deadlock: {who:?} blocked forever")));
+        return RaceResult { problems, steps, outcome_key, labels };
+    }
+    if !problems.is_empty() {
+        return RaceResult { problems, steps, outcome_key, labels };
+    }
+    for (i, o) in outs.iter().enumerate() {
+        if o.is_none() {
+            problems.push(("life-race|call-never-returned".into(), format!("{:?} never returned", ops[i])));
+        }
+    }
+    // ---- linearization: some order of the calls that respects real time (a call that
+    // returned before another was first polled precedes it) must explain what is observed
+    let oks: Vec<bool> = outs.iter().map(|o| matches!(o, Some(Ok(_)))).collect();
+    let residue = prefix_content(&live);
+    let listed = db.metadata().collections.contains(COLL_NAME);
+    let n_docs = model.docs.docs.len() as u64;
+    // observed: per task an opened handle's (Active?, len)
+    let observed_handles: Vec<Option<(bool, u64)>> = outs
+        .iter()
+        .map(|o| match o {
+            Some(Ok(Some(h))) => Some((h.state() == CollectionState::Active, h.len() as u64)),
+            _ => None,
+        })
+        .collect();
+    let orig_active = coll.state() == CollectionState::Active;
+    #[derive(Clone, Debug, PartialEq)]
+    struct Final {
+        exists: bool,
+        fresh: bool,
+        orig_active: bool,
+        handles: Vec<Option<bool>>,
+    }
+    let mut candidates: Vec<(Vec<usize>, Final)> = Vec::new();
+    let mut perm: Vec<usize> = (0..n).collect();
+    let mut perms: Vec<Vec<usize>> = Vec::new();
+    fn permute(k: usize, a: &mut Vec<usize>, out: &mut Vec<Vec<usize>>) {
+        if k == a.len() {
+            out.push(a.clone());
+            return;
+        }
+        for i in k..a.len() {
+            a.swap(k, i);
+            permute(k + 1, a, out);
+            a.swap(k, i);
+        }
+    }
+    permute(0, &mut perm, &mut perms);
+    for order in perms {
+        // real-time order
+        let pos = |t: usize| order.iter().position(|x| *x == t).unwrap();
+        let mut ok = true;
+        for a in 0..n {
+            for b in 0..n {
+                if a != b
+                    && let (Some(da), Some(fb)) = (done_step[a], first_step[b])
+                    && da < fb
+                    && pos(a) > pos(b)
+                {
+                    ok = false;
+                }
+            }
+        }
+        if !ok {
+            continue;
+        }
+        // sequential model of the three lifecycle calls
+        let mut exists = true;
+        let mut fresh = false;
+        let mut o_active = true; // the original handle is registered and Active at the start
+        // incarnation each open handle belongs to, and whether it is still the registered Active one
+        let mut h_active: Vec<Option<bool>> = vec![None; n];
+        for &t in &order {
+            if !oks[t] {
+                continue; // a call that reported an error has no effect
+            }
+            match ops[t] {
+                Life::Close => {
+                    o_active = false;
+                    for h in h_active.iter_mut().flatten() {
+                        *h = false;
+                    }
+                }
+                Life::Delete => {
+                    exists = false;
+                    o_active = false;
+                    for h in h_active.iter_mut().flatten() {
+                        *h = false;
+                    }
+                }
+                Life::Open => {
+                    if !exists {
+                        exists = true;
+                        fresh = true;
+                    }
+                    // an open of a collection whose handle is registered and Active hands that handle back
+                    h_active[t] = Some(true);
+                }
+            }
+        }
+        candidates.push((order.clone(), Final { exists, fresh: exists && fresh, orig_active: o_active, handles: h_active }));
+    }
+    let matches_observation = |f: &Final| -> bool {
+        if f.exists != listed || f.exists == residue.is_empty() {
+            return false;
+        }
+        for t in 0..n {
+            match (&f.handles[t], &observed_handles[t]) {
+                (None, None) => {}
+                (Some(exp_active), Some((act, len))) => {
+                    if exp_active != act {
+                        return false;
+                    }
+                    if *act && *len != if f.fresh { 0 } else { n_docs } {
+                        return false;
+                    }
+                }
+                _ => return false,
+            }
+        }
+        // the original handle stays Active only while no close / delete retired it
+        f.orig_active == orig_active
+    };
+    let explained: Vec<&(Vec<usize>, Final)> = candidates.iter().filter(|(_, f)| matches_observation(f)).collect();
+    if explained.is_empty() {
+        problems.push((
+            "life-race|no-sequential-explanation".into(),
+            format!(
+                "no real-time-respecting order of {ops:?} explains the outcome: results {shorts:?}, original handle {:?}, listed={listed}, objects under the prefix={} (first: {:?}); orders tried: {:?}",
+                coll.state(),
+                residue.len(),
+                residue.keys().next(),
+                candidates.iter().map(|(o, f)| format!("{o:?}->exists={} fresh={} orig_active={} handles={:?}", f.exists, f.fresh, f.orig_active, f.handles)).collect::<Vec<_>>()
+            ),
+        ));
+        return RaceResult { problems, steps, outcome_key, labels };
+    }
+    let mut handles: Vec<(String, Arc<Collection>)> = vec![("original".into(), coll.clone())];
+    for (i, o) in outs.iter().enumerate() {
+        if let Some(Ok(Some(h))) = o {
+            handles.push((format!("opened-by-task-{i}"), h.clone()));
+        }
+    }
+    // retired handles are inert
+    for (who, h) in &handles {
+        if h.state() != CollectionState::Active {
+            let before = prefix_content(&live);
+            let mut ps = Vec::new();
+            retained_battery(&live, h, &format!("life-race-{}", format!("{:?}", h.state()).to_lowercase()), &mut ps);
+            if prefix_content(&live) != before {
+                problems.push(("life-race|retired-handle-writes".into(), format!("the retired {who} handle changed storage after the race")));
+            }
+            problems.extend(ps);
+        }
+    }
+    if !problems.is_empty() {
+        return RaceResult { problems, steps, outcome_key, labels };
+    }
+    // durable state: what the explaining order says exists must be complete for a reopen
+    let f = &explained[0].1;
+    if f.exists {
+        let fresh_options: Vec<bool> = {
+            let mut v: Vec<bool> = explained.iter().map(|(_, f)| f.fresh).collect();
+            v.sort();
+            v.dedup();
+            v
+        };
+        let mut per_option: Vec<Vec<(String, String)>> = Vec::new();
+        for fresh in fresh_options {
+            let mut ps = Vec::new();
+            let exp = if fresh { expectation_from(&SeqModel::default(), idx, &[], &[], 1) } else { expectation_from(&model, idx, &[], &[], next_id) };
+            // flush through whatever handle is registered, then look from a fresh process
+            let _ = util::block_on(db.close_collection(COLL_NAME));
+            let content = ctlstore::snapshot(live.cs.inner());
+            match util::block_on(crash::recover(&content, &exp, crash::Backend::Mem)) {
+                Ok(rec) => {
+                    if !rec.fx.db.metadata().collections.contains(COLL_NAME) {
+                        ps.push(("life-race|not-durably-listed".into(), "the collection is not listed for a fresh process".into()));
+                    }
+                    let (p2, _) = util::block_on(crash::check_state(&rec.fx, &exp));
+                    for (sig, msg) in p2 {
+                        ps.push((format!("life-race|durable|{sig}"), format!("after the race, fresh process ({}): {msg}", if fresh { "collection recreated after the delete" } else { "original collection" })));
+                    }
+                }
+                Err(e) => ps.push(("life-race|durable|recover".into(), e)),
+            }
+            per_option.push(ps);
+        }
+        if per_option.iter().all(|ps| !ps.is_empty()) {
+            problems.extend(per_option.into_iter().next().unwrap());
+        }
+    }
+    RaceResult { problems, steps, outcome_key, labels }
+}
+
+// ---------------------------------------------------------------------------
 // Part C: a storage fault inside close / flush (every mutation x both answers)
 
 struct FaultResult {
@@ -875,6 +1157,15 @@ fn main() {
             if let Some(res) = fault_case(idx, &call, &dirty, r["i"].as_u64().unwrap(), ans) {
                 problems = res.problems;
             }
+        } else if r["kind"] == "life-race" {
+            let ops: Vec<Life> = serde_json::from_value(r["ops"].clone()).unwrap();
+            let choices: Vec<u32> = serde_json::from_value(r["choices"].clone()).unwrap();
+            let mut ch = Chooser::new(choices);
+            let res = life_race_case(Idx { tags: false, ..Idx::ALL }, &ops, &mut ch);
+            if let Some(d) = ch.diverged {
+                vcore::report::machinery(&format!("replay diverged: {d}"));
+            }
+            problems = res.problems;
         } else if r["kind"] == "poison-race" {
             let victim: Op = serde_json::from_value(r["victim"].clone()).unwrap();
             let survivor: Op = serde_json::from_value(r["survivor"].clone()).unwrap();
@@ -1106,6 +1397,107 @@ fn main() {
         }
     }
 
+    // ---- Part E: lifecycle operations of one name racing each other
+    {
+        use Life::*;
+        let bound = run.tier.pick(2, 3);
+        let idx = Idx { tags: false, ..Idx::ALL };
+        let mut sets: Vec<Vec<Life>> = vec![
+            vec![Close, Open, Delete],
+            vec![Close, Delete, Open],
+            vec![Open, Close, Delete],
+            vec![Delete, Close, Open],
+            vec![Delete, Open, Close],
+            vec![Open, Delete, Close],
+            vec![Close, Open, Open],
+            vec![Close, Open, Close],
+            vec![Delete, Open, Open],
+            vec![Open, Delete, Open],
+            vec![Close, Open],
+            vec![Delete, Open],
+            vec![Open, Delete],
+            vec![Close, Delete],
+        ];
+        if run.tier == vcore::Tier::Thorough {
+            sets.push(vec![Close, Open, Delete, Open]);
+            sets.push(vec![Close, Open, Close, Delete]);
+            sets.push(vec![Delete, Open, Delete, Open]);
+            sets.push(vec![Close, Open, Close, Open]);
+        }
+        struct LrOut {
+            ops: Vec<Life>,
+            machinery: Option<String>,
+            found: Vec<(Vec<u32>, Vec<(String, String)>)>,
+            execs: u64,
+            steps: u64,
+            keys: Vec<u64>,
+            capped: bool,
+        }
+        let outs = util::par_map(sets, threads, |ops| {
+            let mut lo = LrOut { ops: ops.clone(), machinery: None, found: vec![], execs: 0, steps: 0, keys: vec![], capped: false };
+            let a = life_race_case(idx, &ops, &mut Chooser::new(vec![]));
+            let b = life_race_case(idx, &ops, &mut Chooser::new(vec![]));
+            if a.labels != b.labels || a.outcome_key != b.outcome_key {
+                lo.machinery = Some("nondeterministic replay".into());
+                return lo;
+            }
+            let stats = choice::explore(
+                bound,
+                1,
+                deadline,
+                u64::MAX,
+                |ch| {
+                    let r = life_race_case(idx, &ops, ch);
+                    (r, ch.diverged.clone())
+                },
+                |choices, (r, div)| {
+                    lo.execs += 1;
+                    lo.steps += r.steps as u64;
+                    lo.keys.push(r.outcome_key);
+                    if let Some(d) = div {
+                        lo.machinery = Some(d);
+                        return false;
+                    }
+                    if !r.problems.is_empty() {
+                        lo.found.push((choices, r.problems));
+                        return false;
+                    }
+                    true
+                },
+            );
+            lo.capped = stats.capped;
+            lo
+        });
+        for lo in outs {
+            if let Some(m) = lo.machinery {
+                vcore::report::machinery(&format!("life race {:?}: {m}", lo.ops));
+            }
+            run.add("executions", lo.execs);
+            run.add("evaluations", lo.execs);
+            run.add("transitions", lo.steps);
+            run.add("life_race_executions", lo.execs);
+            run.distinct(util::fnv64(format!("life {:?}", lo.ops).as_bytes()));
+            let kinds: std::collections::BTreeSet<u64> = lo.keys.iter().copied().collect();
+            if lo.ops.len() == 3 && run.get("life_race_samples") < 2 {
+                run.add("life_race_samples", 1);
+                run.sample(json!({"part": "life-race", "ops": format!("{:?}", lo.ops), "preemption_bound": bound, "executions": lo.execs, "distinct_outcome_kinds": kinds.len()}));
+            }
+            outcome_kinds.extend(lo.keys);
+            for (choices, ps) in lo.found {
+                for (sig, msg) in ps {
+                    run.violation(Violation {
+                        signature: format!("C06|{sig}"),
+                        summary: format!("lifecycle race {:?}, schedule {choices:?}: {msg}", lo.ops),
+                        replay: json!({"kind": "life-race", "ops": lo.ops, "choices": choices}),
+                    });
+                }
+            }
+            if lo.capped {
+                run.cap_hit("time budget inside the lifecycle-race part");
+            }
+        }
+    }
+
     // ---- Part B
     let transitions = vec![Call::CollClose, Call::DbCloseCollection, Call::DbDeleteCollection, Call::CollReadOnly, Call::DbReadOnly, Call::DbClose];
     let op_alpha = vec![
@@ -1233,7 +1625,7 @@ fn main() {
     run.add("states", (outcome_kinds.len() + cancel_states.len()) as u64);
     run.set("completed", json!(completed));
     run.set("cancel_handle_states", json!(cancel_states));
-    run.rule("fault: close / close_collection / flush with each of 4 unflushed acknowledged ops, every backend mutation of the call answered ErrBefore and ErrAfter: a non-Active handle rejects everything and writes nothing, reopening through the same database satisfies the C01/C02 oracles; poison-race: a call cancelled at any suspension point (a deviation) while another call is in flight, the caller then reopens through the same database - directly, and after a close_collection that fails on the poisoned handle - concurrently with the survivor, all schedules within the bound: the reopened handle satisfies the C01/C02 oracles with the survivor acknowledged and the victim all-or-nothing; cancel: each of 14 mutating APIs (clean and dirty collection) dropped after k polls for every k up to completion; race: each of 6 lifecycle transitions x every set of k operations from a 5-operation alphabet (always a dirty collection so flush/close write), every interleaving with <= B preemptions; oracle on the attributed mutation journal + retained-handle battery (10 mutating APIs, before and after set_read_only(false)) + reopen through the same database handle with the C01/C02 oracles; states = distinct (outcome vector, admission classification) kinds");
+    run.rule("life-race: 2..3 (thorough 4) lifecycle calls on ONE collection name (close_collection, open_or_create with the index callback, delete_collection; 14 ordered sets) spawned together on a collection holding an acknowledged unflushed update, every schedule within the preemption bound: after a successful delete every handle is either retired and inert or an EMPTY collection created after it (listed, complete for a fresh process), nothing else remains under the prefix; without a delete the collection is listed, every Active handle agrees with the acknowledged history and close + reopen satisfies the C01/C02 oracles; fault: close / close_collection / flush with each of 4 unflushed acknowledged ops, every backend mutation of the call answered ErrBefore and ErrAfter: a non-Active handle rejects everything and writes nothing, reopening through the same database satisfies the C01/C02 oracles; poison-race: a call cancelled at any suspension point (a deviation) while another call is in flight, the caller then reopens through the same database - directly, and after a close_collection that fails on the poisoned handle - concurrently with the survivor, all schedules within the bound: the reopened handle satisfies the C01/C02 oracles with the survivor acknowledged and the victim all-or-nothing; cancel: each of 14 mutating APIs (clean and dirty collection) dropped after k polls for every k up to completion; race: each of 6 lifecycle transitions x every set of k operations from a 5-operation alphabet (always a dirty collection so flush/close write), every interleaving with <= B preemptions; oracle on the attributed mutation journal + retained-handle battery (10 mutating APIs, before and after set_read_only(false)) + reopen through the same database handle with the C01/C02 oracles; states = distinct (outcome vector, admission classification) kinds");
     run.assume("await granularity (one scheduling point per backend call and per async-lock wait); operations in one race set touch different documents so that a task blocked before its first backend call is waiting for admission (operation gate), not for a document lock");
     run.finish();
 }
